@@ -14,6 +14,11 @@ def setup(world):
     pass
 
 
+def _fl_env():
+    from vlib.pyvc.dtmodel import spec_functions
+    return {'fl': spec_functions()['fl']}
+
+
 def contracts():
     cs = []
 
@@ -29,8 +34,9 @@ def contracts():
     for fn, op in ops:
         for tag, ta, tb in combos:
             c(M + fn, name='math.%s/%s' % (fn, tag),
-              params=dict(left=ta, right=tb),
-              ensures=['result == left %s right' % op],
+              params=dict(left=ta, right=tb), env=_fl_env(),
+              ensures=['result == left %s right' % op if tag == 'int,int'
+                       else 'result == fl(left %s right)' % op],
               native=None if tag == 'int,int' else False)
     # `/` on two integers floors (exactly, at any magnitude) and agrees with
     # mod:  a == (a / b) * b + (a mod b)
@@ -47,7 +53,8 @@ def contracts():
         c(M + 'division', name='math.division/' + tag,
           params=dict(left=ta, right=tb),
           raises={'ZeroDivisionError': 'right == 0'},
-          ensures=['right != 0', 'result == left / right'], native=False)
+          env=_fl_env(),
+          ensures=['right != 0', 'result == fl(left / right)'], native=False)
     c(M + 'modulo', name='math.modulo/int,int',
       params=dict(left=TInt, right=TInt),
       raises={'ZeroDivisionError': 'right == 0'},
